@@ -215,6 +215,15 @@ def run_real(system, inputs):
             ts = VisionsTypeset(types)
         except Exception as e:  # noqa
             ts = e
+    # the successor order of the real graphs (observable through networkx): lets the oracle say exactly which guards
+    # the documented greedy walk evaluates
+    system["_succ"] = {}
+    if not isinstance(ts, Exception):
+        for mode, g in ((0, ts.base_graph), (1, ts.relation_graph)):
+            try:
+                system["_succ"][mode] = {inv[n]: [inv[m] for m in g.successors(n)] for n in g.nodes}
+            except Exception:  # noqa
+                pass
     out = []
     for cid, vals in inputs:
         for mode in (0, 1):
